@@ -157,7 +157,9 @@ def rule_c14(an, res):
                         if not is_age_loop(segs):
                             continue
                         check_age_loop(res, prop, cm, roles, m, seg, lp, segs, clocks)
-                if k == 'AGE':
+                if k == 'AGE' and ops.nothing_to_do(top):
+                    res.ob('R-AGE-TALLY', ok=True)
+                elif k == 'AGE':
                     ok = len([1 for lp, segs in top.loops if is_age_loop(segs)]) == 1
                     r = top.ret
                     if ok:
